@@ -20,7 +20,7 @@ RULE = ('templates with $repeat at document level (map and list form), as list e
         'non-integer counts must fail. Non-trivial = at least one copy uses its index; distinct = distinct templates.')
 ASSUMPTIONS = ['negative counts, index-independent map keys and $repeat:name as a whole value are not generated (statement silent)']
 
-TOK = re.compile(r'<<([0-9]|N:[a-z])>>')
+TOK = re.compile(r'<<([0-9]|N:[A-Za-z]+)>>')
 
 
 def subst(s, env):
@@ -128,7 +128,7 @@ def body(rng, depth, nested_ok, named=None):
         elif r < 0.35 and named is None:
             out[k] = '<<VAL%d>>' % depth
         elif r < 0.6:
-            out[k] = rng.choice(['', 'a-', 'x:', 'é ', 'n}']) + rng.choice(toks) + rng.choice(['', '-z', ' }', ':', '.'])
+            out[k] = rng.choice(['', 'a-', 'x:', 'é ', 'n}', 'line1\nline2 ', '\n']) + rng.choice(toks) + rng.choice(['', '-z', ' }', ':', '.', '\nend', '\n'])
             if len(toks) > 1 and rng.random() < 0.5:
                 out[k] += '/' + rng.choice(toks)
         elif r < 0.72:
@@ -174,7 +174,7 @@ def gen_case(rng, i, tier):
         inner['$repeat'] = n
         case['layers'] = [{'m': {rng.choice(['k<<0>>', '<<0>>', 'a<<0>>b']): inner, 'fixed': 1}}]
     else:
-        names = rng.sample(['a', 'b', 'c'], rng.randint(1, 3))
+        names = rng.sample(['a', 'b', 'c', 'Zone', 'App', 'Z', 'aa', 'B'], rng.randint(1, 3))
         t = body(rng, 0, False, named=names)
         t['$repeat'] = {nm: rng.randint(0, 3) for nm in names}
         case['layers'] = [t]
@@ -197,6 +197,10 @@ def fixed_cases(tier):
         out.append({'kind': 'named', 'layers': [{'$repeat': {'a': ca, 'b': cb, 'c': cc}, 'v': '<<N:a>>-<<N:b>>-<<N:c>>', '<<N:c>>k': '<<N:a>>'}]})
     for n in range(0, 4):
         out.append({'kind': 'named', 'layers': [{'$repeat': {'b': n}, 'v': 'x<<N:b>>'}]})
+    out.append({'kind': 'named', 'layers': [{'$repeat': {'Zone': 2, 'app': 3}, 'v': '<<N:Zone>>/<<N:app>>'}]})
+    out.append({'kind': 'named', 'layers': [{'$repeat': {'b': 2, 'B': 2, 'a': 2}, 'v': '<<N:b>><<N:B>><<N:a>>'}]})
+    out.append({'kind': 'doc', 'layers': [{'$repeat': 2, 'v': 'first\nidx=<<0>>\nlast', 'w': '<<0>>\n'}]})
+    out.append({'kind': 'list', 'layers': [{'l': [{'$repeat': 2, 'v': 'a\n<<0>>'}]}]})
     return out
 
 
